@@ -1,2 +1,3 @@
 import LdkModel.Driver.C11
-def main (args : List String) : IO UInt32 := Ldk.Driver.runMain [("c11", Ldk.Driver.c11)] args
+import LdkModel.Driver.C11F
+def main (args : List String) : IO UInt32 := Ldk.Driver.runMain [("c11", Ldk.Driver.c11), ("c11f", Ldk.Driver.c11f)] args
